@@ -34,7 +34,7 @@ ANCHORS = [
     "stereomolgraph.experimental:topological_symmetry_number",
 ]
 REQUIRED_ANCHORS = ANCHORS
-REQUIRED = ["pairs_small", "pairs_symmetric", "symmetry_numbers", "reverts", "nonempty_answers", "empty_answers", "group_closure_checked", "labels:default", "labels:colour", "labels:constant", "labels:colliding", "pairs_regular", "scale_cases", "pairs_twins", "same_object_pairs", "labels:marked"]
+REQUIRED = ["pairs_small", "pairs_symmetric", "symmetry_numbers", "reverts", "nonempty_answers", "empty_answers", "group_closure_checked", "labels:default", "labels:colour", "labels:constant", "labels:colliding", "pairs_regular", "scale_cases", "pairs_twins", "same_object_pairs", "labels:marked", "pairs_stale_ligand"]
 CASE_TIMEOUT = 120
 LABELS = ("default", "colour", "constant", "element", "element+degree", "colliding")
 _diag = {"on": False, "bad": 0, "updates": 0, "reverts": 0}
@@ -145,6 +145,12 @@ def gen_cases(ctx):
         stereo = cls in STEREO and rng.random() < 0.75
         change = stereo and cls == "StereoCondensedReactionGraph" and rng.random() < 0.75
         yield {"kind": "small", "family": "marked", "cls": cls, "a": pg_to_json(a), "b": pg_to_json(a), "stereo": stereo, "change": change, "labels": "marked", "mark": [ids.index(x), ids.index(y)], "same_object": i % 4 != 3, "bseed": rng.randrange(1 << 30)}
+    # a descriptor that still names a ligand its centre is no longer bonded to, and that ligand has a twin
+    for i in range(ctx.n(800, 8000)):
+        cls = STEREO[i % 2]
+        a = gen.stale_ligand_pg(rng, cls)
+        b = a if i % 4 < 2 else sem.pg_relabel(a, gen.random_bijection(rng, a))
+        yield {"kind": "small", "family": "stale-ligand", "cls": cls, "a": pg_to_json(a), "b": pg_to_json(b), "stereo": True, "change": cls == "StereoCondensedReactionGraph", "labels": ("default", "constant", "element")[i % 3], "bseed": rng.randrange(1 << 30)}
     # very long chains: search depth = number of atoms
     for k, nsz, cls, seed in gen.scale_specs(ctx, rng, reps=1):
         yield {"kind": "small", "family": "scale", "cls": cls, "scale": nsz, "gseed": seed, "self": k % 2 == 0, "stereo": cls in STEREO, "change": cls == "StereoCondensedReactionGraph", "labels": "default", "bseed": seed // 3}
@@ -286,6 +292,8 @@ def check_case(ctx, case):
         ctx.count("pairs_regular")
     if case.get("family") == "twins":
         ctx.count("pairs_twins")
+    if case.get("family") == "stale-ligand":
+        ctx.count("pairs_stale_ligand")
     ctx.count("nonempty_answers" if ref else "empty_answers")
     ctx.count(f"labels:{lk}")
     cr, cf = _canon(real), _canon(ref)
